@@ -537,24 +537,22 @@ func (m *Mast) SeekIter(ctx context.Context, k interface{}, f func(interface{}, 
 	if err != nil {
 		return err
 	}
-	keyLayer, err := m.keyLayer(k, m.branchFactor)
-	if err != nil {
-		return fmt.Errorf("layer: %w", err)
-	}
+	// descend all the way (or to the key itself): entries not smaller than an absent key can sit
+	// below the key's own layer as well as above it
 	options := findOptions{
-		targetLayer:   uint8min(keyLayer, m.height),
+		targetLayer:   0,
 		currentHeight: m.height,
 	}
-	node, i, err := node.findNode(ctx, m, k, &options)
+	_, _, err = node.findNode(ctx, m, k, &options)
 	if err != nil {
 		return err
 	}
-	if i >= len(node.Key) ||
-		options.targetLayer != options.currentHeight {
-		return nil
-	}
 	for i := len(options.path) - 1; i >= 0; i-- {
 		entry := options.path[i]
+		if i+1 < len(options.path) && options.path[i+1].node == entry.node {
+			// findNode stays on a node whose link is missing: visit it once
+			continue
+		}
 		err = entry.node.seekIter(ctx, entry.linkIndex, f, m)
 		if err == ErrIterDone {
 			return nil
